@@ -2,13 +2,15 @@ import Driver.Util
 import Driver.Conc.Cell
 import Driver.Conc.BPool
 import Driver.Conc.OOM
+import Driver.Conc.Satb
 /-! package `Conc` (see CONVENTIONS.md): register components in `step`.
 `cfg` lines this package cares about may be matched here too (they must answer "ok");
 every package sees every `cfg` line.
 
 * `cell` / `fwd` / `casbit` (C17, C18): `Driver/Conc/Cell.lean`
 * `bpool` (C19): `Driver/Conc/BPool.lean`
-* `oom` (C10): `Driver/Conc/OOM.lean` -/
+* `oom` (C10): `Driver/Conc/OOM.lean`
+* `satb` (C12, racing SATB barriers): `Driver/Conc/Satb.lean` -/
 namespace Driver.Conc
 open Driver
 
@@ -16,6 +18,7 @@ structure St where
   debug : Bool := true
   cell : Cell.Cell := {}
   bpool : BPool.St := {}
+  satb : Satb.St := {}
 
 /-- `none` = not a component of this package. -/
 def step (st : St) (toks : List String) : Option (St × String) :=
@@ -27,6 +30,9 @@ def step (st : St) (toks : List String) : Option (St × String) :=
     let (b, o) := BPool.step st.bpool args
     some ({ st with bpool := b }, o)
   | "oom" :: args => some (st, OOM.step args)
+  | "satb" :: args =>
+    let (b, o) := Satb.step st.satb args
+    some ({ st with satb := b }, o)
   | _ => none
 
 /-- `cfg` lines are broadcast to every package. -/
